@@ -164,9 +164,9 @@ macro_rules! split_cap {
 
 //@ {"p":"C16","tier":"quick","clause":"unconstrained_split, cap 1: values canonical (19-entry table), non-increasing, at most cap; a single note holding exactly denomination+buffer crosses whole; otherwise the optimistic cost (notes + one fee per started 14) fits the balance, the first value is the largest canonical value affordable with its fee, and stopping short of the cap leaves less than 10^6 + buffer + fee","bounds":"cap 1; balance, buffer in [0,MAX_MONEY]; fee <= 10^6 (bounds the step-down loop, checked by the unwinding assertion); note count symbolic","covers":3,"t":1800,"unwindset":{"CanonicalOneTwoFive::unconstrained_split.1":2,"CanonicalOneTwoFive::unconstrained_split.0":4,"zip318::largest_one_two_five.0":8,"zip318::largest_one_two_five.1":4,"c16_denom::c16_split_cap1.1":20}}
 split_cap!(c16_split_cap1, 1, 1_000_000, 4);
-//@ {"p":"C16","tier":"thorough","clause":"same, cap 2 (needs more than 16 GB)","bounds":"cap 2; as above","covers":3,"t":3600,"unwindset":{"CanonicalOneTwoFive::unconstrained_split.1":3,"CanonicalOneTwoFive::unconstrained_split.0":4,"zip318::largest_one_two_five.0":8,"zip318::largest_one_two_five.1":4,"c16_denom::c16_split_cap2.1":20}}
+//@ {"p":"C16","tier":"experimental","why_experimental":"propositional reduction runs out of memory at 26 GB (64-bit multiplications/divisions per note)","clause":"same, cap 2 (needs more than 16 GB)","bounds":"cap 2; as above","covers":3,"t":3600,"unwindset":{"CanonicalOneTwoFive::unconstrained_split.1":3,"CanonicalOneTwoFive::unconstrained_split.0":4,"zip318::largest_one_two_five.0":8,"zip318::largest_one_two_five.1":4,"c16_denom::c16_split_cap2.1":20}}
 split_cap!(c16_split_cap2, 2, 1_000_000, 5);
-//@ {"p":"C16","tier":"thorough","clause":"same, cap 3","bounds":"cap 3; as above","covers":3,"t":7200,"unwindset":{"CanonicalOneTwoFive::unconstrained_split.1":4,"CanonicalOneTwoFive::unconstrained_split.0":4,"zip318::largest_one_two_five.0":8,"zip318::largest_one_two_five.1":4,"c16_denom::c16_split_cap3.1":20}}
+//@ {"p":"C16","tier":"experimental","why_experimental":"propositional reduction runs out of memory at 26 GB (64-bit multiplications/divisions per note)","clause":"same, cap 3","bounds":"cap 3; as above","covers":3,"t":7200,"unwindset":{"CanonicalOneTwoFive::unconstrained_split.1":4,"CanonicalOneTwoFive::unconstrained_split.0":4,"zip318::largest_one_two_five.0":8,"zip318::largest_one_two_five.1":4,"c16_denom::c16_split_cap3.1":20}}
 split_cap!(c16_split_cap3, 3, 1_000_000, 6);
 
 // Stubs for `CanonicalOneTwoFive::unconstrained_split`: ANY canonical, non-increasing list of one
